@@ -1,6 +1,7 @@
 package main
 
 import (
+	"errors"
 	"context"
 	"fmt"
 	"math/big"
@@ -123,6 +124,7 @@ type Phase struct {
 	Clients    []ClientPlan
 	DieAt      int // decision index at which the generation is killed (-1 = runs to completion)
 	FailInsert int // n-th InsertLogs call of this generation fails (0 = none)
+	FailRead   string // "Method:k": the k-th call of that store read method in this generation fails once (transient fault)
 	WorkerW    int
 	Hold       []string
 }
@@ -147,10 +149,11 @@ func planJSON(sc *Scenario) any {
 		Clients    []ClientPlan `json:"clients"`
 		DieAt      int          `json:"die_at_decision"`
 		FailInsert int          `json:"fail_insert_call,omitempty"`
+		FailRead   string       `json:"fail_read_call,omitempty"`
 	}
 	var out []ph
 	for _, p := range sc.Phases {
-		out = append(out, ph{p.Clients, p.DieAt, p.FailInsert})
+		out = append(out, ph{p.Clients, p.DieAt, p.FailInsert, p.FailRead})
 	}
 	return out
 }
@@ -174,6 +177,7 @@ func runControlled(sc *Scenario, seed uint64) *ScenarioRun {
 		env.store.insertCalls = 0
 		env.store.FailInsert = ph.FailInsert
 		env.store.mu.Unlock()
+		env.store.ReadFault = readFaultFor(ph.FailRead)
 		res := env.RunPhaseControlled(s, ph.Clients)
 		run.Scheds = append(run.Scheds, s)
 		run.Decisions = append(run.Decisions, s.Decision)
@@ -197,10 +201,33 @@ func runControlled(sc *Scenario, seed uint64) *ScenarioRun {
 	return run
 }
 
+var errInjectedRead = errors.New("injected read failure")
+
+// readFaultFor: "Method:k" -> the k-th call of Method fails, once.
+func readFaultFor(spec string) func(string) error {
+	if spec == "" {
+		return nil
+	}
+	var method string
+	var k int
+	if i := strings.LastIndex(spec, ":"); i > 0 {
+		method = spec[:i]
+		fmt.Sscanf(spec[i+1:], "%d", &k)
+	}
+	var n atomic.Int64
+	return func(m string) error {
+		if m == method && n.Add(1) == int64(k) {
+			return errInjectedRead
+		}
+		return nil
+	}
+}
+
 func runFree(sc *Scenario, seed uint64) *ScenarioRun {
 	env := NewEnv()
 	run := &ScenarioRun{Env: env}
 	for pi, ph := range sc.Phases {
+		env.store.ReadFault = readFaultFor(ph.FailRead)
 		if st := env.RunPhaseFree(seed+uint64(pi), ph.Clients, 20*time.Second); st != "" {
 			run.Stalled = fmt.Sprintf("phase %d: %s", pi, st)
 			break
@@ -347,6 +374,18 @@ func genContention(r *vc.Rand) *Scenario {
 		if r.Chance(1, 6) {
 			return g.template(src, fmt.Sprintf("spare%d", r.Intn(4)), fmt.Sprintf("sink%d", r.Intn(3)), amt)
 		}
+		if r.Chance(1, 8) {
+			// a spender that may overdraw without limit (its own postings are not judged) racing with plain spenders of the same
+			// account: it still has to exclude them while its entry is in flight
+			if r.Bool() {
+				return g.send(src, "sink", amt, "unbounded", vc.Pick(r, []string{"literal", "variable"}))
+			}
+			for i, a := range hot {
+				if a == src {
+					return g.revert(fmt.Sprint(i), true)
+				}
+			}
+		}
 		switch r.Intn(10) {
 		case 0, 1:
 			return g.send(src, "sink", amt, "", "literal")
@@ -455,8 +494,15 @@ func genIdempotency(r *vc.Rand) *Scenario {
 		if r.Bool() {
 			ph.DieAt = r.Intn(45)
 		}
-		sc.Phases = append(sc.Phases, ph, Phase{Clients: []ClientPlan{{Name: "retry", Ops: retry}}, DieAt: -1})
+		rp := Phase{Clients: []ClientPlan{{Name: "retry", Ops: retry}}, DieAt: -1}
+		if r.Chance(1, 4) { // the key lookup of a retry meets a transient store error: the retry must fail, not run again
+			rp.FailRead = fmt.Sprintf("ReadLogWithIdempotencyKey:%d", r.Range(1, len(retry)))
+		}
+		sc.Phases = append(sc.Phases, ph, rp)
 	} else {
+		if r.Chance(1, 6) {
+			ph.FailRead = fmt.Sprintf("ReadLogWithIdempotencyKey:%d", r.Range(1, 4))
+		}
 		sc.Phases = append(sc.Phases, ph)
 	}
 	return sc
@@ -468,6 +514,14 @@ func genReferences(r *vc.Rand) *Scenario {
 	g := &opGen{r: r}
 	sc := &Scenario{Kind: "references"}
 	ref := fmt.Sprintf("ref-%d", r.Intn(1000))
+	switch r.Intn(10) { // a reference is an opaque client string
+	case 0:
+		ref += " "
+	case 1:
+		ref = " " + ref
+	case 2:
+		ref = vc.Pick(r, []string{" ", "  ", "\t", "a b", "É/é?&=", strings.Repeat("r", 300)})
+	}
 	setup := []Op{g.fund("alice", 200), g.fund("bob", 30)}
 	carrier := r.Chance(1, 3) // the reference is already carried by a committed transaction (id 2), possibly reverted since
 	if carrier {
@@ -522,7 +576,11 @@ func genReferences(r *vc.Rand) *Scenario {
 	if r.Chance(1, 3) { // a later attempt, after everything settled (and after a restart)
 		op := g.send("alice", "sink", 1, "", "literal")
 		op.Reference = ref
-		sc.Phases = append(sc.Phases, Phase{Clients: []ClientPlan{{Name: "late", Ops: []Op{op}}}, DieAt: -1})
+		lp := Phase{Clients: []ClientPlan{{Name: "late", Ops: []Op{op}}}, DieAt: -1}
+		if r.Chance(1, 3) { // the reference lookup meets a transient store error: the request must fail, not commit
+			lp.FailRead = "GetTransactionByReference:1"
+		}
+		sc.Phases = append(sc.Phases, lp)
 	}
 	return sc
 }
@@ -616,7 +674,11 @@ func genReverts(r *vc.Rand) *Scenario {
 		for k := r.Range(1, 3); k > 0; k-- {
 			ops = append(ops, g.revert(fmt.Sprint(r.Range(0, nOrig+1)), r.Bool()))
 		}
-		sc.Phases = append(sc.Phases, Phase{Clients: []ClientPlan{{Name: "later", Ops: ops}}, DieAt: -1})
+		lp := Phase{Clients: []ClientPlan{{Name: "later", Ops: ops}}, DieAt: -1}
+		if r.Chance(1, 3) { // reading the target meets a transient store error: that attempt must fail without effect
+			lp.FailRead = "GetTransaction:1"
+		}
+		sc.Phases = append(sc.Phases, lp)
 	}
 	return sc
 }
@@ -811,6 +873,21 @@ func runBigBatch(n int) (*ScenarioRun, int) {
 func genWritesForEvents(r *vc.Rand) *Scenario {
 	sc := genWrites(r)
 	last := &sc.Phases[len(sc.Phases)-1]
+	for pi := range sc.Phases { // every field of the entry must be in the event: references and client timestamps too
+		for c := range sc.Phases[pi].Clients {
+			for k := range sc.Phases[pi].Clients[c].Ops {
+				op := &sc.Phases[pi].Clients[c].Ops[k]
+				if op.Kind == "script" || op.Kind == "postings" {
+					if r.Chance(1, 2) {
+						op.Reference = "order-" + op.Tag
+					}
+					if r.Chance(1, 3) {
+						op.Timestamp = vc.Pick(r, []string{"2023-03-04T05:06:07Z", "2023-03-04T05:06:07.123456Z", "2031-01-01T00:00:00+02:00"})
+					}
+				}
+			}
+		}
+	}
 	for c := range last.Clients {
 		if r.Chance(1, 2) {
 			op := Op{Kind: "savemeta", Tag: "", TargetType: "ACCOUNT", TargetID: vc.Pick(r, accts), Meta: map[string]string{}}
@@ -931,6 +1008,75 @@ func runFailStorm(r *vc.Rand) *ScenarioRun {
 		}
 	}
 	time.Sleep(20 * time.Millisecond) // acknowledgements already under way
+	run.Obs = env.Observe(false)
+	return run
+}
+
+// ------------------------------------------------------------------------------------------------ close under load
+// runCloseStorm: the ledger is closed (Commander.Close, as engine.Ledger.Close does) while one batch is being written
+// and further writes are queued behind it. Whatever the queued requests are told, an acknowledgement needs an entry.
+func runCloseStorm(r *vc.Rand) *ScenarioRun {
+	env := NewEnv()
+	release := make(chan struct{})
+	var first atomic.Bool
+	env.store.SetGate(func(ctx context.Context, point string) error {
+		if point == "persist.begin" && first.CompareAndSwap(false, true) {
+			<-release
+		}
+		return nil
+	})
+	run := &ScenarioRun{Env: env}
+	g, err := env.NewGeneration(context.Background())
+	if err != nil {
+		run.InitErr = err.Error()
+		return run
+	}
+	og := &opGen{r: r}
+	n := r.Range(3, 24)
+	var started atomic.Int64
+	var wg sync.WaitGroup
+	for k := 0; k < n; k++ {
+		var op Op
+		switch r.Intn(4) {
+		case 0:
+			op = og.fund(fmt.Sprintf("acc%d", k%5), int64(1+k))
+		case 1:
+			op = og.saveMetaAcc(fmt.Sprintf("acc%d", k%5), nil)
+		case 2:
+			op = og.delMetaAcc(fmt.Sprintf("acc%d", k%5))
+		default:
+			op = og.postings(P("world", fmt.Sprintf("acc%d", k%5), int64(1+k)))
+		}
+		wg.Add(1)
+		go func(k int) {
+			defer wg.Done()
+			rec := env.hist.call(fmt.Sprintf("w%d", k), g.n, op, env.step.Add(1))
+			started.Add(1)
+			res := execOp(context.Background(), g, op)
+			env.hist.ret(rec, res, env.step.Add(1))
+		}(k)
+	}
+	for w := 0; w < 2000 && started.Load() < int64(n); w++ {
+		time.Sleep(time.Millisecond)
+	}
+	time.Sleep(time.Duration(r.Range(5, 40)) * time.Millisecond) // the requests reach the batcher; the first batch is at the gate
+	closed := make(chan struct{})
+	go func() {
+		defer func() { _ = recover() }()
+		g.cmd.Close()
+		close(closed)
+	}()
+	time.Sleep(time.Duration(r.Range(1, 30)) * time.Millisecond)
+	close(release)
+	done := make(chan struct{})
+	go func() { wg.Wait(); close(done) }()
+	select {
+	case <-done:
+	case <-closed:
+		time.Sleep(30 * time.Millisecond) // acknowledgements under way
+	case <-time.After(3 * time.Second):
+	}
+	g.dead.Store(true) // already closed: Observe's shutdown must not close it again
 	run.Obs = env.Observe(false)
 	return run
 }
